@@ -83,7 +83,7 @@ def check_stream(ctx, rec, deep):
 def run(ctx):
     from . import c13
     gen = {"MCLineFrame.tla": "---- MODULE MCLineFrame ----\nEXTENDS LineFrameGen\nE3 == <<\"CRLF\", \"LF\", \"CR\">>\n====\n"}
-    r = ctx.tlc("http", "MCLineFrame", core.cfg_text(constants={"Eols": "<-E3", "MaxLen": 6 if ctx.quick else 7, "Algo": '"earliest"'},
+    r = ctx.tlc("http", "MCLineFrame", core.cfg_text(constants={"Eols": "<-E3", "MaxLen": 6 if ctx.quick else 7, "Algo": '"earliest"', "MaxLine": 0, "Limit": '"held"'},
                                                       invariants=["Confluent", "PrefixOfWhole"]), gen=gen)
     for v in r.violated:
         ctx.violation("the line framing model violates %s" % v, {"tlc": r.out[-3000:]})
